@@ -24,9 +24,9 @@ ingredient: the test that decides whether a (collapsed) child is absorbed depend
 * `lookup_orig`, `run_head_id`, `lookup_loose` : the key lemma `lookupLevel tbl c.id = some (val P.id)`
   for every parent/child pair of the loose trunk; `childOrig_eq_merge` (post-hoc test with the
   original level = merge-time test at the creating pixel of the original parent)
-* `pruneIn_collapse`, `pruneLoop_collapse`, `collapse_fix`, `pruneLoop_eq_collapse` : the pruning
+* `pruneIn_collapse`, `pruneLoop_collapse`, `collapse_fix_aux`, `pruneLoop_eq_collapse` : the pruning
   loop computes the `LP`-collapse of the loose trunk
-* `pruneOrig_eq_compute`             : MAIN (the full target)
+* `pruneOrig_eq_compute`             : MAIN (the full target; the hypothesis `0 ≤ d0` of the task is not needed)
 
 Core Lean only.
 -/
@@ -882,8 +882,8 @@ theorem collapse_pruneAt_two (i : Nat) (o : List Nat) (x y k : Tree)
     · exfalso
       simp only [List.mem_cons, List.not_mem_nil, or_false] at hk
       rcases hk with rfl | rfl
-      · rw [hf] at hx; cases hx
-      · rw [hf] at hy; cases hy
+      · exact Bool.noConfusion (hf.symm.trans hx)
+      · exact Bool.noConfusion (hf.symm.trans hy)
     · have hyk := bdAt_leaf val d n hy
       constructor
       · simp [YG, hx, hy, hyk]
@@ -1052,5 +1052,229 @@ theorem collapse_fix_aux :
     · exact h2 k hk
 
 end PruneSide
+
+/-! ## the trunk step -/
+
+section Trunk
+variable (val : Nat → Int)
+
+/-- the `_make_trunk` filter with `min_delta = d`, `min_npix = n` -/
+abbrev keepT (d : Int) (n : Nat) (t : Tree) : Bool := !(t.isLeaf && !allOrphan val (crits d n) t)
+
+theorem vmin_perm {t t' : Tree} (h : t'.own.Perm t.own) (hne : t.own ≠ []) :
+    t'.vmin val = t.vmin val := by
+  have hne' : t'.own ≠ [] := by
+    intro e; rw [e] at h; exact hne (List.nil_perm.mp h)
+  obtain ⟨h1, a, ha, hv⟩ := P8.vmin_spec val t hne
+  obtain ⟨h1', a', ha', hv'⟩ := P8.vmin_spec val t' hne'
+  have := h1 a' (h.subset ha')
+  have := h1' a (h.symm.subset ha)
+  omega
+
+theorem orphan_sim (d : Int) (n : Nat) {t t' : Tree} (h : Sm t t') (hne : t.own ≠ []) :
+    allOrphan val (crits d n) t = allOrphan val (crits d n) t' := by
+  simp only [allOrphan, crits, List.all_cons, List.all_nil, Crit.orphan,
+    P18.vmax_perm val (P18.Sm.own' h) hne, vmin_perm val (P18.Sm.own' h) hne,
+    (P18.Sm.pixels' h).length_eq]
+
+theorem keepT_sim (d : Int) (n : Nat) {t t' : Tree} (h : Sm t t') (hpix : t.pixels ≠ []) :
+    keepT val d n t = keepT val d n t' := by
+  unfold keepT
+  rw [← P18.Sm.isLeaf' h]
+  cases hl : t.isLeaf with
+  | false => rfl
+  | true =>
+    have hk : t.kids = [] := (PruneP.isLeaf_iff t).mp hl
+    have hne : t.own ≠ [] := by
+      rw [pixels_eq, hk] at hpix; simpa [pixelsL] using hpix
+    rw [orphan_sim val d n h hne]
+
+theorem keepT_mono {d0 d1 : Int} {n0 n1 : Nat} (hd : d0 ≤ d1) (hn : n0 ≤ n1) {t : Tree}
+    (h : keepT val d1 n1 t = true) : keepT val d0 n0 t = true := by
+  unfold keepT at *
+  cases hl : t.isLeaf with
+  | false => rfl
+  | true =>
+    simp only [hl, Bool.true_and, Bool.not_not, allOrphan, crits, List.all_cons, List.all_nil,
+      Crit.orphan, Bool.and_true, Bool.and_eq_true, decide_eq_true_eq] at h ⊢
+    omega
+
+end Trunk
+
+/-! ## the main theorem -/
+
+section Main
+variable (val : Nat → Int) (nbrs : Nat → List Nat) (order : List Nat) (d0 d1 : Int) (n0 n1 : Nat)
+
+/-- the post-hoc criteria with the original merge level are, on every parent/child pair of the
+loose trunk, the merge-time criteria at the creating pixel of the parent -/
+theorem childOrig_eq_merge (E : Env) (hnd : order.Nodup) (d : Int) (n : Nat) :
+    ∀ P ∈ preL (makeTrunk E (run E order)), ∀ c ∈ P.kids,
+      allChildOrig val (origLevelsL val (makeTrunk E (run E order))) [Crit.minDelta d, Crit.minNpix n]
+        P c = allMerge val [Crit.minDelta d, Crit.minNpix n] c P.id (val P.id) := by
+  intro P hP c hc
+  simp only [allChildOrig, allMerge, List.all_cons, List.all_nil, Crit.childOrig,
+    lookup_loose val E order hnd P hP c hc, Crit.child, Crit.atMerge]
+
+/-- the pruning loop with the original-level rule, applied to the loose trunk, computes the
+collapse of the loose trunk at the levels of the run -/
+theorem pruneLoop_eq_collapse (hnd : order.Nodup) :
+    SmL (pruneLoop
+        (allChildOrig val
+          (origLevelsL val (makeTrunk (envOf val nbrs (crits d0 n0)) (run (envOf val nbrs (crits d0 n0)) order)))
+          (crits d1 n1))
+        (sizeL (makeTrunk (envOf val nbrs (crits d0 n0)) (run (envOf val nbrs (crits d0 n0)) order)))
+        (makeTrunk (envOf val nbrs (crits d0 n0)) (run (envOf val nbrs (crits d0 n0)) order)))
+      ((makeTrunk (envOf val nbrs (crits d0 n0)) (run (envOf val nbrs (crits d0 n0)) order)).map
+        (collapse val d1 n1 (LS val))) := by
+  generalize hE0 : envOf val nbrs (crits d0 n0) = E0
+  have hkey := lookup_loose val E0 order hnd
+  have hids : IdsNodup (makeTrunk E0 (run E0 order)) := loose_idsNodup E0 order hnd
+  have hsub : ∀ s ∈ preL (makeTrunk E0 (run E0 order)), s ∈ preL (run E0 order) :=
+    makeTrunk_nodes_subset E0 _
+  have har : ∀ s ∈ preL (makeTrunk E0 (run E0 order)), PArity s :=
+    fun s hs => compute_arity_pre E0 order s hs
+  have hpix : ∀ s ∈ preL (makeTrunk E0 (run E0 order)), s.pixels ≠ [] :=
+    fun s hs => P18.own_ne_pixels_ne (run_own_nonempty E0 order s (hsub s hs))
+  generalize makeTrunk E0 (run E0 order) = loose at *
+  generalize htbl : origLevelsL val loose = tbl at *
+  have hlev : ∀ t ∈ loose, ChildIn (HasLev tbl) t := by
+    intro t ht P hP k hk
+    exact ⟨_, hkey P (PruneP.mem_preL.2 ⟨t, ht, hP⟩) k hk⟩
+  -- the collapse at looked-up levels is the collapse at the levels of the run
+  have hbridge : loose.map (collapse val d1 n1 (LP tbl)) = loose.map (collapse val d1 n1 (LS val)) := by
+    apply List.map_congr_left
+    intro t ht
+    apply collapse_congr
+    intro P hP k hk
+    simp only [LP, LS, levOf, hkey P (PruneP.mem_preL.2 ⟨t, ht, hP⟩) k hk, Option.getD_some]
+  rw [← hbridge]
+  have hloop := pruneLoop_collapse val tbl d1 n1 (sizeL loose) loose hids hpix hlev
+  have hfix := pruneLoop_fixpoint (allChildOrig val tbl (crits d1 n1)) loose hids
+  rw [pruneForest_none_iff] at hfix
+  have harL := pruneLoop_arity (allChildOrig val tbl (crits d1 n1)) (sizeL loose) loose hids har
+  have hpixL := P18.pruneLoop_pixels_ne (allChildOrig val tbl (crits d1 n1)) (sizeL loose) loose
+    hids hpix
+  have hlevL := pruneLoop_childIn (HasLev tbl) (allChildOrig val tbl (crits d1 n1)) (sizeL loose)
+    loose hids hlev
+  generalize pruneLoop (allChildOrig val tbl (crits d1 n1)) (sizeL loose) loose = R at *
+  refine P18.SmL.trans (smL_map ?_) hloop
+  intro t ht
+  apply (collapse_fix_aux val tbl d1 n1).1 t
+  · intro P hP k hk hl
+    have hPL : P ∈ preL R := PruneP.mem_preL.2 ⟨t, ht, hP⟩
+    have hne : k.own ≠ [] := by
+      have := hpixL k (kid_mem_preL hPL hk)
+      rw [pixels_eq, hl] at this
+      simpa [pixelsL] using this
+    have h1 := ic_orig_eq val tbl d1 n1 (P := P) hl hne (hlevL t ht P hP k hk)
+    rw [hfix P hPL k hk hl] at h1
+    simpa using h1.symm
+  · intro P hP
+    exact harL P (PruneP.mem_preL.2 ⟨t, ht, hP⟩)
+
+/-- **C08 for `min_delta` and `min_npix` together, with the original-merge-level rule.**  Computing
+with `min_delta = d0`, `min_npix = n0` (identifiers = creating pixels) and pruning afterwards with
+`d1 ≥ d0`, `n1 ≥ n0`, where the post-hoc `min_delta` test of a leaf measures its peak from the
+value of the pixel that first gave it a parent, yields the same hierarchy — same regions, same own
+pixels, same parent relation; identifiers, child order and own-pixel order may differ — as
+computing with `d1`, `n1` directly.  The order must list distinct pixels by non-increasing value
+(ties in any order); nothing is assumed about the adjacency or the sign of `d0`. -/
+theorem pruneOrig_eq_compute (hnd : order.Nodup)
+    (hsorted : order.Pairwise (fun a b => val b ≤ val a)) (hd : d0 ≤ d1) (hn : n0 ≤ n1) :
+    P10.SimL (fun p => p)
+      (prune
+        (allChildOrig val
+          (origLevelsL val
+            (makeTrunk (envOf val nbrs [Crit.minDelta d0, Crit.minNpix n0])
+              (run (envOf val nbrs [Crit.minDelta d0, Crit.minNpix n0]) order)))
+          [Crit.minDelta d1, Crit.minNpix n1])
+        (allOrphan val [Crit.minDelta d1, Crit.minNpix n1])
+        (makeTrunk (envOf val nbrs [Crit.minDelta d0, Crit.minNpix n0])
+          (run (envOf val nbrs [Crit.minDelta d0, Crit.minNpix n0]) order)))
+      (makeTrunk (envOf val nbrs [Crit.minDelta d1, Crit.minNpix n1])
+        (run (envOf val nbrs [Crit.minDelta d1, Crit.minNpix n1]) order)) := by
+  have hA := pruneLoop_eq_collapse val nbrs order d0 d1 n0 n1 hnd
+  have hB := run_collapse val nbrs d0 d1 n0 n1 hd hn order hsorted
+  have hidsL := loose_idsNodup (envOf val nbrs (crits d0 n0)) order hnd
+  have hpixL : ∀ s ∈ preL (makeTrunk (envOf val nbrs (crits d0 n0))
+      (run (envOf val nbrs (crits d0 n0)) order)), s.pixels ≠ [] :=
+    fun s hs => P18.own_ne_pixels_ne (run_own_nonempty _ order s (makeTrunk_nodes_subset _ _ s hs))
+  have hpixR := P18.pruneLoop_pixels_ne
+    (allChildOrig val (origLevelsL val (makeTrunk (envOf val nbrs (crits d0 n0))
+      (run (envOf val nbrs (crits d0 n0)) order))) (crits d1 n1))
+    (sizeL (makeTrunk (envOf val nbrs (crits d0 n0)) (run (envOf val nbrs (crits d0 n0)) order)))
+    _ hidsL hpixL
+  have hne0 : ∀ t ∈ run (envOf val nbrs (crits d0 n0)) order, t.own ≠ [] :=
+    fun t ht => run_own_nonempty _ order t (mem_preL_of_mem ht)
+  have hio : (envOf val nbrs (crits d0 n0)).indepOrphan = allOrphan val (crits d0 n0) := rfl
+  show SmL (prune (allChildOrig val (origLevelsL val (makeTrunk (envOf val nbrs (crits d0 n0))
+      (run (envOf val nbrs (crits d0 n0)) order))) (crits d1 n1)) (allOrphan val (crits d1 n1))
+      (makeTrunk (envOf val nbrs (crits d0 n0)) (run (envOf val nbrs (crits d0 n0)) order)))
+    (makeTrunk (envOf val nbrs (crits d1 n1)) (run (envOf val nbrs (crits d1 n1)) order))
+  unfold prune makeTrunkP
+  generalize envOf val nbrs (crits d0 n0) = E0 at *
+  generalize run E0 order = roots0 at *
+  generalize run (envOf val nbrs (crits d1 n1)) order = roots1 at *
+  generalize pruneLoop (allChildOrig val (origLevelsL val (makeTrunk E0 roots0)) (crits d1 n1))
+    (sizeL (makeTrunk E0 roots0)) (makeTrunk E0 roots0) = R at *
+  -- pixels of the collapsed roots are non-empty
+  have hpixC : ∀ c ∈ roots0.map (collapse val d1 n1 (LS val)), c.pixels ≠ [] := by
+    intro c hc e
+    obtain ⟨t, ht, rfl⟩ := List.mem_map.mp hc
+    have := collapse_pixels val d1 n1 (LS val) t
+    rw [e] at this
+    exact P18.own_ne_pixels_ne (hne0 t ht) (List.nil_perm.mp this)
+  -- 1. drop the sort on the pruned side
+  have s1 : SmL ((sortById R).filter (keepT val d1 n1)) (R.filter (keepT val d1 n1)) :=
+    P18.SmL.of_perm ((sortById_perm R).filter _)
+  -- 2. pass to the collapse of the loose trunk
+  have s2 : SmL (R.filter (keepT val d1 n1))
+      (((makeTrunk E0 roots0).map (collapse val d1 n1 (LS val))).filter (keepT val d1 n1)) := by
+    apply P10.SimL.filter hA
+    intro x hx y hxy
+    exact keepT_sim val d1 n1 hxy (hpixR x (mem_preL_of_mem hx))
+  -- 3. the loose trunk step is subsumed by the strict one
+  have s3 : SmL (((makeTrunk E0 roots0).map (collapse val d1 n1 (LS val))).filter (keepT val d1 n1))
+      ((roots0.map (collapse val d1 n1 (LS val))).filter (keepT val d1 n1)) := by
+    have hperm : ((makeTrunk E0 roots0).map (collapse val d1 n1 (LS val))).Perm
+        ((roots0.filter (fun t => !(t.isLeaf && !E0.indepOrphan t))).map
+          (collapse val d1 n1 (LS val))) := by
+      unfold makeTrunk
+      exact ((sortById_perm roots0).filter _).map _
+    refine (P18.SmL.of_perm (hperm.filter _)).trans ?_
+    rw [List.filter_map, List.filter_map, List.filter_filter]
+    have : roots0.filter (fun a => (keepT val d1 n1 ∘ collapse val d1 n1 (LS val)) a &&
+          !(a.isLeaf && !E0.indepOrphan a))
+        = roots0.filter (keepT val d1 n1 ∘ collapse val d1 n1 (LS val)) := by
+      apply List.filter_congr
+      intro t _
+      simp only [Function.comp]
+      cases hl : t.isLeaf with
+      | false => simp
+      | true =>
+        have hk : t.kids = [] := (PruneP.isLeaf_iff t).mp hl
+        rw [collapse_leaf val d1 n1 (LS val) hk, hio]
+        cases h1 : keepT val d1 n1 t with
+        | false => rfl
+        | true =>
+          have h0 := keepT_mono val hd hn h1
+          unfold keepT at h0
+          rw [hl] at h0
+          rw [h0]; rfl
+    rw [this]
+    exact P18.SmL.refl _
+  -- 4. pass to the strict run
+  have s4 : SmL ((roots0.map (collapse val d1 n1 (LS val))).filter (keepT val d1 n1))
+      (roots1.filter (keepT val d1 n1)) := by
+    apply P10.SimL.filter hB
+    intro x hx y hxy
+    exact keepT_sim val d1 n1 hxy (hpixC x hx)
+  -- 5. put the sort back
+  have s5 : SmL (roots1.filter (keepT val d1 n1)) ((sortById roots1).filter (keepT val d1 n1)) :=
+    P18.SmL.of_perm ((sortById_perm roots1).filter _).symm
+  exact (((s1.trans s2).trans s3).trans s4).trans s5
+
+end Main
 
 end P28
